@@ -4,8 +4,8 @@ import "strings"
 
 func init() {
 	register("C10", []string{"./..."}, func(p *Prog, r *Report) {
-		r.Engines = []string{"effects(EFF-SHARED,EFF-OPTSLICE,EFF-RESET,EFF-LOCK)", "conc(CONC-CTX,CONC-CLOSE,CONC-DAG,CONC-SIGNAL)", "sibling"}
-		r.Explanation = "Static effect and channel-protocol analysis. Decided: (EFF-SHARED) no function reachable (restricted call graph) from (*system).Solve, groth16/plonk Prove and Verify on any curve stores into an object of a shared type (constraint.System, per-curve system, coefficient table, any constraint.Blueprint implementation, proving/verifying keys, PLONK trace) that it did not allocate itself; (EFF-OPTSLICE) every append whose base derives from ProverConfig.SolverOpts works on a three-index slice with cap==len; (EFF-RESET) in Solve the stateful-blueprint Reset loop precedes solver.run on every path; (EFF-LOCK) lock-guarded package-level registries are accessed under their mutex; (EFF-DCL) no method pre-checks, outside the lock, a field that it writes under a mutex of the same object (double-checked locking); the PLONK/Groth16 channel protocol rules of C03 (no wait can block forever). NOT decided: equality of results across schedules, caller-shared hash.Hash option values, races inside gnark-crypto."
+		r.Engines = []string{"effects(EFF-SHARED,EFF-OPTSLICE,EFF-RESET,EFF-LOCK,EFF-DCL)", "pooluaf(POOL-UAF)", "conc(CONC-CTX,CONC-CLOSE,CONC-DAG,CONC-SIGNAL)", "sibling"}
+		r.Explanation = "Static effect and channel-protocol analysis. Decided: (EFF-SHARED) no function reachable (restricted call graph) from (*system).Solve, groth16/plonk Prove and Verify on any curve stores into an object of a shared type (constraint.System, per-curve system, coefficient table, any constraint.Blueprint implementation, proving/verifying keys, PLONK trace) that it did not allocate itself; (EFF-OPTSLICE) every append whose base derives from ProverConfig.SolverOpts works on a three-index slice with cap==len; (EFF-RESET) in Solve the stateful-blueprint Reset loop precedes solver.run on every path; (EFF-LOCK) lock-guarded package-level registries are accessed under their mutex; (EFF-DCL) no method pre-checks, outside the lock, a field that it writes under a mutex of the same object (double-checked locking); (POOL-UAF) every object handed back to a shared pool (big.Int pool, polynomial memory pool, sync.Pool) by solver / prover code is neither used after the release nor escapes the releasing function; the PLONK/Groth16 channel protocol rules of C03 (no wait can block forever). NOT decided: equality of results across schedules, caller-shared hash.Hash option values, races inside gnark-crypto."
 		r.RuleText = "one obligation per function reachable from the entry points (no shared write) or per shared write / append / access site; nontrivial = a site needing a witness (capped slice, dominating lock, reviewed reason)"
 		r.Assumptions = []string{"call graph: static callees + CHA on gnark-declared interfaces + signature-matched function values; foreign interface methods write only their receiver and arguments", "objects allocated inside the call (solver, PLONK instance, Proof in Prove) are recognised by allocation site"}
 		cg := BuildCallGraph(p)
@@ -15,6 +15,11 @@ func init() {
 			return
 		}
 		ee.RunShared(r)
+		RunPoolUAF(p, r, func(pk string) bool {
+			rel := strings.TrimPrefix(pk, modPath+"/")
+			return strings.HasPrefix(rel, "constraint") || strings.HasPrefix(rel, "backend") || strings.HasPrefix(rel, "internal/gkr") || strings.HasPrefix(rel, "internal/utils")
+		})
+		r.RequireMin("POOL-UAF", 20)
 		ee.RunOptSlice(r)
 		ee.RunResetOrder(r)
 		ee.RunLocks(r)
